@@ -602,6 +602,7 @@ func checkC16(c *Check) {
 	responseFreshPerCheck(c, "C16.R4", R)
 	noUnsafeSharedDependencyObject(c, "C16.R1", R)
 	gatesAreOpened(c, "C16.R3")
+	cacheEntriesPublishedComplete(c, "C16.R2")
 	// the generator a check draws its identifiers from is built for that check by the audited constructor and
 	// carries no state (C06.R2 wiring, C06.R3 independence): a generator shared by concurrent checks with a
 	// scratch buffer of its own is a data race on the identifiers themselves
@@ -955,4 +956,82 @@ func gatesAreOpened(c *Check, rule string) {
 		}
 	}
 	c.Obl(n >= 1, rule, "gates", "-", fmt.Sprintf("%d start gate(s) found", n), "no start gate found (the JWKS provider's `started` channel is the anchor of this rule)")
+}
+
+// cacheEntriesPublishedComplete: an entry of the discovery cache becomes visible to concurrent checks at the
+// map update (made under the mutex). It is complete by then: the document was decoded before the update on
+// every path, and — when the cache holds pointers — nothing decodes into or assigns to the published object
+// afterwards. An entry registered first and filled later is read half-built (empty endpoints) by a check
+// that overlaps the first fetch, and the fill races with that read.
+func cacheEntriesPublishedComplete(c *Check, rule string) {
+	P := c.P
+	gw := P.Func(pkgOIDC, "GetWellKnownConfig")
+	if !c.Anchor(rule, "GetWellKnownConfig", gw != nil) {
+		return
+	}
+	n := 0
+	for _, gf := range deepFuncs(gw, 2) {
+		if pkgPathOf(gf) != pkgOIDC {
+			continue
+		}
+		var decodes []ssa.Instruction
+		for _, ci := range allCalls(gf) {
+			if isCallToAny(ci, "encoding/json.Decoder.Decode", "encoding/json.Unmarshal") {
+				decodes = append(decodes, ci)
+			}
+			if callee := ci.Common().StaticCallee(); callee != nil && pkgPathOf(callee) == pkgOIDC && callee != gf {
+				for _, ci2 := range allCalls(callee) {
+					if isCallToAny(ci2, "encoding/json.Decoder.Decode", "encoding/json.Unmarshal") {
+						decodes = append(decodes, ci) // the helper call stands for the decode
+					}
+				}
+			}
+		}
+		isDecode := func(i ssa.Instruction) bool {
+			for _, d := range decodes {
+				if d == i {
+					return true
+				}
+			}
+			return false
+		}
+		for _, b := range gf.Blocks {
+			for _, ins := range b.Instrs {
+				mu, ok := ins.(*ssa.MapUpdate)
+				if !ok {
+					continue
+				}
+				mt, isM := mu.Map.Type().Underlying().(*types.Map)
+				if !isM || !strings.HasSuffix(typeID(derefType(mt.Elem())), ".WellKnownConfig") {
+					continue
+				}
+				n++
+				if len(decodes) > 0 && gf == gw {
+					before := mustPassBefore(gf, mu, isDecode)
+					c.Obl(before, rule, "cache-entry-decoded-before-publication/"+nthKeyOf(mu), P.Pos(mu.Pos()), "the document is decoded before the entry is put into the cache",
+						"an entry is put into the discovery cache before the document was decoded: a check overlapping the first fetch reads an empty entry")
+				}
+				if _, isPtr := mt.Elem().Underlying().(*types.Pointer); isPtr {
+					after := reachAvoiding(mu, nil, func(i ssa.Instruction) bool {
+						if isDecode(i) {
+							return true
+						}
+						if st, isS := i.(*ssa.Store); isS {
+							if fa, isF := st.Addr.(*ssa.FieldAddr); isF && sameVal(fa.X, mu.Value) {
+								return true
+							}
+						}
+						return false
+					}, nil)
+					c.Obl(after == nil, rule, "cache-entry-not-written-after-publication/"+nthKeyOf(mu), P.Pos(mu.Pos()), "the published object is not written afterwards",
+						"the object put into the discovery cache is filled after it was published ("+posOf(P, after)+"): concurrent checks read it half-built, and the fill races with their reads")
+				}
+			}
+		}
+	}
+	c.Obl(n >= 1, rule, "cache-publications", "-", fmt.Sprintf("%d insertion(s) into the discovery cache", n), "no insertion into the discovery cache found (anchor lost)")
+}
+
+func nthKeyOf(i ssa.Instruction) string {
+	return fnKey(i.Parent())
 }
